@@ -35,7 +35,11 @@ RULE = ("ALL command sequences up to a length bound over {assert fresh|repeated,
         "(solvers), all interleavings of two live solver instances up to length 4 (thorough 5) over {add, push 1, pop 1, "
         "is_sat, read, exit}, soft clauses drawn from two clauses only so that the same clause recurs under the same id, the "
         "other id and after a pop; scripts executed on a tracking solver through SmtLibScript.evaluate / InterpreterOMT (all of length "
-        "<= 4 over assert/push/pop/reset/check-sat/other, and over assert/push 1/pop 1/check-sat/maximize/get-objectives), plus seeded random sequences of length 8-60 with all four objective "
+        "<= 4 over assert/push/pop/reset/check-sat/other, and over assert/push 1/pop 1/check-sat/maximize/get-objectives); the TEXT "
+        "route (scripts written as SMT-LIB text by the harness -- (push 0), (pop), :id/:weight -- read back by SmtLibParser, then "
+        "get_last_formula / evaluate: all of length <= 3, seeded longer ones); extreme but legal sizes (300 [thorough 2000] MaxSMT goals "
+        "with distinct ids, 300 [2000] nested levels, 1500 [10000] assertions with push/pop of that many levels, 300 [2000] "
+        "objectives; a solver driven to 300 [600] levels), plus seeded random sequences of length 8-60 with all four objective "
         "kinds, :signed, weights, three soft ids.  Non-trivial = a pop/reset actually removed an item, a soft id was "
         "reused, or (solvers) a one-shot query was followed by another call.")
 ASSUMPTIONS = [
@@ -943,17 +947,83 @@ def random_ops(rng, n, tracking, pushsup, illegal_end, apush=False):
 
 
 # --------------------------------------------------------------------------------------------- driver
-def lean_run(lines, timeout=1800):
+_LEAN_ENV = [None]
+_DRIVERS = set()             # pids of the driver processes of THIS process that are still running
+DRIVER_TIMEOUT_S = 75.0      # hard limit for one driver process (set by run() per tier)
+
+
+def _lean_env():
+    """the environment `lake env` would give, computed once: the driver is then ONE process (`lean --run`) that this
+    process starts, owns and can kill -- `lake env lean …` is two, and killing `lake` leaves `lean` running"""
+    if _LEAN_ENV[0] is None:
+        p = subprocess.run(["lake", "env", "env", "-0"], cwd=common.LEAN_DIR, capture_output=True, timeout=120)
+        env = {}
+        for item in p.stdout.split(b"\0"):
+            if b"=" in item:
+                k, v = item.split(b"=", 1)
+                env[k.decode()] = v.decode()
+        if p.returncode != 0 or "LEAN_PATH" not in env:
+            raise common.LeanError("lake env failed: %s" % p.stderr[-500:])
+        _LEAN_ENV[0] = env
+    return _LEAN_ENV[0]
+
+
+def _die_with_parent():
+    # child side, before exec: own process group, and SIGKILL as soon as the process that started it is gone
+    import ctypes
+    import signal
+    os.setsid()
+    try:
+        ctypes.CDLL("libc.so.6", use_errno=True).prctl(1, signal.SIGKILL)      # PR_SET_PDEATHSIG
+    except Exception:
+        pass
+
+
+def kill_drivers():
+    import signal
+    for pid in list(_DRIVERS):
+        try:
+            os.killpg(pid, signal.SIGKILL)
+        except Exception:
+            pass
+        _DRIVERS.discard(pid)
+
+
+def lean_run(lines, timeout=None):
+    """One driver process answers `lines`.  It can never outlive this process or its time limit: own process group,
+    killed (whole group) on timeout and on any exception -- including the watchdog's --, PDEATHSIG for the case that
+    this process is killed itself."""
     if not lines:
         return []
-    p = subprocess.run(["lake", "env", "lean", "--run", "Drivers/C16.lean"], cwd=common.LEAN_DIR,
-                       input="\n".join(lines) + "\n", capture_output=True, text=True, timeout=timeout)
-    out = p.stdout.split("\n")
+    timeout = min(timeout or DRIVER_TIMEOUT_S, DRIVER_TIMEOUT_S)
+    env = _lean_env()
+    proc = subprocess.Popen([env.get("LEAN", "lean"), "--run", "Drivers/C16.lean"], cwd=common.LEAN_DIR, env=env,
+                            stdin=subprocess.PIPE, stdout=subprocess.PIPE, stderr=subprocess.PIPE, text=True,
+                            preexec_fn=_die_with_parent)
+    _DRIVERS.add(proc.pid)
+    try:
+        try:
+            stdout, stderr = proc.communicate("\n".join(lines) + "\n", timeout=timeout)
+        except subprocess.TimeoutExpired:
+            raise common.LeanError("driver C16 did not answer %d requests within %d s (killed)" % (len(lines), timeout))
+    finally:
+        if proc.poll() is None:
+            import signal
+            try:
+                os.killpg(proc.pid, signal.SIGKILL)
+            except Exception:
+                proc.kill()
+            try:
+                proc.wait(timeout=10)
+            except Exception:
+                pass
+        _DRIVERS.discard(proc.pid)
+    out = stdout.split("\n")
     if out and out[-1] == "":
         out.pop()
-    if p.returncode != 0 or len(out) != len(lines):
+    if proc.returncode != 0 or len(out) != len(lines):
         raise common.LeanError("driver C16: rc=%s, %d answers for %d requests\n%s" % (
-            p.returncode, len(out), len(lines), p.stderr[-2000:]))
+            proc.returncode, len(out), len(lines), stderr[-2000:]))
     return out
 
 
@@ -1002,7 +1072,7 @@ class Batch(object):
         model = None
         if use_lean and self.lines:
             try:
-                model = lean_run(self.lines, timeout=max(60, BUNDLE_BUDGET_S * 2))
+                model = lean_run(self.lines)
             except (common.LeanError, subprocess.TimeoutExpired) as e:
                 self.res.l.append(("driver C16 does not run", str(e)))
         for (start, n, cb) in self.pending:
@@ -1622,7 +1692,7 @@ def large_script(rng, n, family):
     return toks, True
 
 
-def large_ops(rng, n):
+def large_ops(rng, n, tracking=True):
     """a solver driven to n levels, with one-shot queries at depth"""
     toks, lev = [], 0
     for i in range(n):
@@ -1632,7 +1702,7 @@ def large_ops(rng, n):
         lev += k
         if i % 17 == 0:
             toks.append("q%s%d" % (rng.choice("svu"), 10000 + 2 * (n + i)))
-        if i % 41 == 0:
+        if i % 41 == 0 and tracking:
             toks.append("g")
     while lev > 0:
         k = min(lev, rng.choice([1, 2, 4, 50]))
@@ -1640,7 +1710,7 @@ def large_ops(rng, n):
         lev -= k
         if rng.random() < 0.2:
             toks.append("qs%d" % (10000 + 2 * (3 * n + lev)))
-    toks.append("g")
+    toks.append("g" if tracking else "s")
     return toks, True
 
 
@@ -1774,7 +1844,7 @@ def work(bundle):
             elif kind == "script_large":
                 rng = random.Random(task["seed"])
                 cases = [large_script(rng, task["n"], task["family"])]
-                fast = task["family"] in ("asserts", "objectives") or task["n"] <= 40
+                fast = True     # the driver answers 2000-goal / 2000-level scripts in seconds (tables, not closures)
                 check_scripts(cases, res, batch=batch, model_script=fast)
                 if task.get("text"):
                     check_scripts([(textable(t), l) for t, l in cases], res, batch=batch, text=True, model_script=fast)
@@ -1783,7 +1853,7 @@ def work(bundle):
                 global POINTS_SHOWN
                 POINTS_SHOWN = max(POINTS_SHOWN, 3 * task["n"])
                 rng = random.Random(task["seed"])
-                check_tracks(task["cfg"], task["who"], [large_ops(rng, task["n"])], res, True, batch=batch)
+                check_tracks(task["cfg"], task["who"], [large_ops(rng, task["n"], task["cfg"][6] == "1")], res, True, batch=batch)
             elif kind == "duo_enum":
                 cases = list(enum_duos(task["depth"], task["cfg"][6] == "1"))
                 check_duos((task["cfg"], task["cfg"]), task["who"], cases, res, batch=batch)
@@ -2302,6 +2372,7 @@ class _LastResort(object):
         try:
             sys.stderr.write("INFRA-ERROR: C16 harness still running after %d s; workers killed, giving up\n" % self.seconds)
             sys.stderr.flush()
+            kill_drivers()
             if self.pool is not None:
                 self.pool.terminate()
         finally:
@@ -2328,6 +2399,12 @@ def run(ctx):
     # nothing may wait unbounded: every bundle has its own budget, every case its own deadline (SIGALRM), and the
     # pool as a whole is abandoned at the tier's deadline
     BUNDLE_BUDGET_S = 100.0 if ctx.tier == "quick" else 800.0
+    global DRIVER_TIMEOUT_S
+    DRIVER_TIMEOUT_S = 75.0 if ctx.tier == "quick" else 600.0
+    try:
+        _lean_env()
+    except Exception as e:
+        ctx.report_l("driver C16 does not run", str(e))
     overall = max(30.0, min(ctx.time_left() - 10, 130.0 if ctx.tier == "quick" else 1100.0))
     t_end = time.time() + overall
     done = 0
